@@ -637,7 +637,7 @@ struct Interp : Sink
 		}
 		case O_COPY_CONSTRUCT: case O_MOVE_CONSTRUCT: {
 			const int src = op.a % MAXOBJ;
-			if(aliveObj(o) || !aliveObj(src) || procOn(src) || !dqns[src].empty()) return;
+			if(aliveObj(o) || !aliveObj(src) || procOn(src)) return;   // copying / moving from a queue whose notification is disabled is legal
 			++counters.poolOps;
 			construct(o, src, op.k == O_MOVE_CONSTRUCT);
 			break;
